@@ -462,6 +462,7 @@ func main() {
 	extractAccess(*repo, files)
 	extractEngineApi(*repo, files)
 	extractFrame(*repo, files)
+	extractDecisions(*repo, files)
 	extractRecover(*repo, files)
 	extractSinks(*repo, files)
 	sort.Strings(fx.Unknown)
